@@ -162,14 +162,23 @@ def h_table_by_id(nr, nc, axis, n):
     t, a = _count_table(nr, nc)
     inv = 'observation' if axis == 'sample' else 'sample'
     N = len(a.ids(axis))
-    seed = pick([0, 3], 'seed')
+    via = pick(['method', 'generate_subsamples'], 'via')
+    seed = pick([0, 3], 'seed') if via == 'method' else None
     RNG.reset()
-    res, e = call(lambda: t.subsample(n, axis=axis, by_id=True, seed=seed))
-    sig = dict(axis=axis, n=n)
+    sig = dict(axis=axis, n=n, via=via)
+    if via == 'method':
+        res, e = call(lambda: t.subsample(n, axis=axis, by_id=True, seed=seed))
+    else:
+        import sx.env as env
+        gen = env.module('biom.util').generate_subsamples(t, n, axis=axis, by_id=True)
+        _, e = call(lambda: next(gen))
+        if e is None:
+            same_table('by-id:input-unchanged', observe(t), a, type_=True, after='first-yield', **sig)
+            res, e = call(lambda: next(gen))
     if e is not None:
         fail('by-id:raised', repr(e)[:160], **sig)
         return
-    if len(RNG.LOG) != 1 or RNG.LOG[0].seed != seed:
+    if via == 'method' and (len(RNG.LOG) != 1 or RNG.LOG[0].seed != seed):
         fail('by-id:seeding', f"{[g.seed for g in RNG.LOG]} for seed={seed}", **sig)
     got = observe(res)
     if len(got.ids(axis)) != min(n, N):
